@@ -404,7 +404,9 @@ OnQ(mm, e) ==
                   LET x == m2.s[sid] IN
                   IF x.q = "hcr" /\ x.res >= 1 THEN [x EXCEPT !.q = "cEnd", !.closedAt = m2.closes] ELSE x],
                   !.closes = @ + Cardinality({sid \in DOMAIN m2.s : m2.s[sid].q = "hcr" /\ m2.s[sid].res >= 1})]
-      sidsToJudge == IF mm.multi THEN {sid \in DOMAIN m3.s : sid # 0}
+      \* (nothing is judged about dispatch while the peer is not reading or a loop is parked in a scheduler gate)
+      sidsToJudge == IF e.settled THEN {}
+                     ELSE IF mm.multi THEN {sid \in DOMAIN m3.s : sid # 0}
                      ELSE IF mm.hasCur /\ f.sid # 0 /\ f.sid \in DOMAIN m3.s THEN {f.sid} ELSE {}
       m4 == FoldLeft(LAMBDA acc, sid : JudgeDispatch(acc, sid), m3, SetToSeq(sidsToJudge))
   IN Progress(m4, e)
